@@ -55,6 +55,12 @@ func (dm *DMap) deleteFromPreviousOwners(key string, owners []discovery.Member) 
 	// Traverse in reverse order. Except from the latest host, this one.
 	for i := len(owners) - 2; i >= 0; i-- {
 		owner := owners[i]
+		if owner.CompareByID(dm.s.rt.This()) {
+			// The eviction worker also runs on a previous owner that still holds
+			// data. The caller already holds the lock of this node's own fragment
+			// and removes the local copy itself.
+			continue
+		}
 		cmd := protocol.NewDelEntry(dm.name, key).Command(dm.s.ctx)
 		rc := dm.s.client.Get(owner.String())
 		err := rc.Process(dm.s.ctx, cmd)
